@@ -47,6 +47,10 @@ class SeqSpec:
         """Optional pruning of (history, op) pairs (must be justified in the check's docstring)."""
         return True
 
+    def terminal(self, op):
+        """Operations whose resulting states are checked but not expanded further."""
+        return False
+
     # oracles ----------------------------------------------------------------------------------------------------
     def step_check(self, world: World, before: RawState, after: RawState, res, hist, model_before) -> list:
         """Per transition. Return list of (clause, detail)."""
@@ -94,7 +98,8 @@ def _make_world(spec: SeqSpec, root):
 
 
 def _canon(w: World, raw: RawState):
-    return (tuple(sorted(w.config.items())), raw.canon(), tuple(handle_state(h) for h in w.handles), w.cur)
+    return (tuple(sorted(w.config.items())), raw.canon(), tuple(handle_state(h) for h in w.handles), w.cur,
+            tuple(sorted(w.damaged)))
 
 
 def _replay(spec: SeqSpec, root, hist):
@@ -232,17 +237,20 @@ def explore(spec: SeqSpec, report, deadline: float | None = None):
                                 spec, 'model-divergence',
                                 f'history {h2} reaches the same on-disk state as {first} but the reference models differ: '
                                 f'{mstate} vs {ms}', rname, h2, op))
-                        if not _dominated(pairs, depth, v2):
+                        if not _dominated(pairs, depth, v2) and not spec.terminal(op):
                             pairs.append((depth, v2))
                             nxt.append((h2, v2))
                     else:
                         seen[canon] = (mstate, [(depth, v2)], (rname, h2))
-                        nxt.append((h2, v2))
+                        if not spec.terminal(op):
+                            nxt.append((h2, v2))
                         new_states.append((root, h2, canon))
                         root_states += 1
                         if len(samples) < 6 and depth == spec.depth:
                             samples.append({'root': rname, 'history': h2})
             # state checks on the new canonical states
+            if type(spec).state_check is SeqSpec.state_check:
+                new_states = []         # no per-state oracle: nothing to run
             checks = pmap(_state_task, new_states,
                           progress=f'{spec.prop} {rname} depth {depth} state checks' if len(new_states) > 400 else None)
             for (_r, h2, _c), probs in zip(new_states, checks):
@@ -276,6 +284,82 @@ def explore(spec: SeqSpec, report, deadline: float | None = None):
         cov['cap_hit'] = capped
     cov.setdefault('samples', samples or [{'root': r[0], 'history': r[2]} for r in spec.roots()][:3])
     return seen
+
+
+def _nomerge_task(arg):
+    """Execute one complete history from scratch: step checks on every transition, state check at the end."""
+    root, hist = arg
+    spec = _SPEC
+    _install_listdir(spec.listdir_order)
+    w = None
+    out = []
+    try:
+        with time_limit(EXEC_HORIZON):
+            w = _make_world(spec, root)
+            for i, op in enumerate(hist):
+                before = RawState(w.root)
+                mb = w.model.copy()
+                res = w.apply(op)
+                after = RawState(w.root)
+                if not res.ok:
+                    out.append((i, res.clause, res.detail))
+                for clause, detail in spec.step_check(w, before, after, res, hist[:i], mb):
+                    out.append((i, clause, detail))
+                if out:
+                    return out
+            raw = RawState(w.root)
+            for clause, detail in spec.state_check(w, raw, hist):
+                out.append((len(hist) - 1, clause, detail))
+    except ExecTimeout as exc:
+        out.append((len(hist) - 1, 'hang', str(exc)))
+    finally:
+        if w is not None:
+            w.close()
+    return out
+
+
+def explore_nomerge(spec: SeqSpec, report, ops, depth, root=None):
+    """All histories over `ops` of length 1..depth (subject to spec.enabled), executed without any state merging.
+
+    Guards against state the canonical form cannot see (e.g. process-level caches).  Adds to report.coverage.
+    """
+    import itertools
+    global _SPEC
+    _SPEC = spec
+    common.shutdown_pool()
+    root = root or spec.roots()[0]
+    hists = []
+
+    def rec(prefix):
+        if prefix:
+            hists.append(list(prefix))
+        if len(prefix) == depth:
+            return
+        for op in ops:
+            if spec.enabled(prefix, op):
+                prefix.append(op)
+                rec(prefix)
+                prefix.pop()
+    rec([])
+    # only maximal histories need to be executed: every step is checked along the way
+    maximal = [h for h in hists if len(h) == depth or not any(spec.enabled(h, op) for op in ops)]
+    results = pmap(_nomerge_task, [(root, h) for h in maximal], progress=f'{spec.prop} no-merge pass' if len(maximal) > 2000 else None)
+    n_viol = 0
+    for h, out in zip(maximal, results):
+        seen = set()
+        for i, clause, detail in out:
+            if clause in seen:
+                continue
+            seen.add(clause)
+            n_viol += 1
+            report.add_violation(_viol(spec, clause, detail, root[0], h[:i + 1], h[i]))
+    common.shutdown_pool()
+    cov = report.coverage
+    cov['nomerge_histories'] = cov.get('nomerge_histories', 0) + len(maximal)
+    cov['nomerge_depth'] = depth
+    cov['traces_validated_against_impl'] = cov.get('traces_validated_against_impl', 0) + len(maximal)
+    cov['transitions'] = cov.get('transitions', 0) + sum(len(h) for h in maximal)
+    return len(maximal)
 
 
 def _viol(spec, clause, detail, rname, hist, op):
